@@ -79,7 +79,7 @@ func runSpawnRace(c deliverCase) (any, error) {
 		mu.Unlock()
 		spawnReturned <- ok
 	}()
-	deadline := time.Now().Add(5 * time.Second)
+	deadline := time.Now().Add(30 * time.Second)
 	var pid *actor.PID
 	for pid == nil && time.Now().Before(deadline) {
 		pid = e.Registry.GetPID("sink", "x")
@@ -96,7 +96,7 @@ func runSpawnRace(c deliverCase) (any, error) {
 	close(release)
 	select {
 	case <-done:
-	case <-time.After(5 * time.Second):
+	case <-time.After(30 * time.Second):
 		obs.Hang = true
 	}
 	select {
@@ -229,7 +229,7 @@ func runDeliver(raw json.RawMessage) (any, error) {
 	select {
 	case <-done:
 		time.Sleep(20 * time.Millisecond) // would a duplicate still arrive?
-	case <-time.After(8 * time.Second):
+	case <-time.After(30 * time.Second):
 		obs.Hang = true
 	}
 	mu.Lock()
